@@ -1,12 +1,27 @@
 """STIX2 Core parsing methods."""
 
 import copy
+import functools
 
 from . import registry
 from .exceptions import CustomContentError, ParseError
 from .utils import _get_dict, detect_spec_version
 
 
+def _refuse_excessive_nesting(func):
+    """Report content nested beyond the interpreter's recursion limit as a
+    parse error instead of letting RecursionError escape."""
+    @functools.wraps(func)
+    def wrapper(*args, **kwargs):
+        try:
+            return func(*args, **kwargs)
+        except RecursionError:
+            raise ParseError("Can't parse content which is nested too deeply")
+
+    return wrapper
+
+
+@_refuse_excessive_nesting
 def parse(data, allow_custom=False, interoperability=False, version=None):
     """Convert a string, dict or file-like object into a STIX object.
 
@@ -115,6 +130,7 @@ def dict_to_stix2(stix_dict, allow_custom=False, interoperability=False, version
     return obj
 
 
+@_refuse_excessive_nesting
 def parse_observable(data, _valid_refs=None, allow_custom=False, interoperability=False, version=None):
     """Deserialize a string or file-like object into a STIX Cyber Observable
     object.
